@@ -298,6 +298,11 @@ def run(ctx, chk, tier="quick"):
     )
     chk.assumptions = ["entity roots are the tables storm, zeta_interval, discrete_zeta, grid_time (from the property's state description)",
                        "when max/step is an integer the top level is never crossed under the half-open rule (documented numeric edge, not decided)"]
+    from ..sqlrules import conflict_clauses, lossy_functions
+    conflict_clauses(ctx, chk, "C13.O2", ("rise", "recession", "zeta_grid"), "curve-writes",
+                     "rows that collide with an earlier assembly are dropped or overwritten silently: master-curve rows no longer trace to the intervals of this run")
+    lossy_functions(ctx, chk, "C13.O5", ("rise", "recession", "zeta_grid"), "curve-queries",
+                    "a rounded level, bound or epoch is not the stored one: a level that is crossed can fall outside the grid, an interval can be looked up under another instant")
     from .. import sqltypes
     sqltypes.check(ctx, chk, "C13.O3", modules=("rise", "recession", "zeta_grid"), views=("storm_total_rise", "rising_curve_line_segment", "storm_total_rain_depth"))
     sch = ctx.schema
